@@ -122,7 +122,7 @@ impl BitFont {
     pub fn convert_to_u8_data(&self) -> Vec<u8> {
         let mut result = Vec::new();
         for ch in 0..self.length {
-            if let Some(glyph) = self.get_glyph(unsafe { char::from_u32_unchecked(ch as u32) }) {
+            if let Some(glyph) = char::from_u32(ch as u32).and_then(|ch| self.get_glyph(ch)) {
                 result.extend_from_slice(&glyph.data);
             } else {
                 log::error!("Glyph not found for char: {}", ch);
